@@ -22,6 +22,14 @@ uint32_t vp_c18_cfg(void) { return C18_CFG; }
 void vp_c18_str1(char *out, uint16_t c) { QAD *d = qs_new(1, 1); SD(d)[0] = c; qs_seal(d, 0); REF(d) = (uint32_t)-1; *(QAD**)out = d; }
 void vp_c18_str3(char *out, uint16_t c0, uint16_t c1, uint16_t c2) { QAD *d = qs_new(3, 3); SD(d)[0] = c0; SD(d)[1] = c1; SD(d)[2] = c2; qs_seal(d, 0); REF(d) = (uint32_t)-1; *(QAD**)out = d; }
 void vp_c18_bytes1(char *out, uint8_t c) { QAD *d = qb_new(1, 1); BD(d)[0] = c; BD(d)[1] = 0; REF(d) = (uint32_t)-1; *(QAD**)out = d; }
+/* universe constants: one immutable block per account / key id, created once (vp_c18_init); a symbolic universe element is a
+   choice between these few blocks (cbmc's value sets are per object, so few long-lived blocks beat many fresh ones) */
+static QAD *c18_uo[2], *c18_uk[5];
+static QAD *c18_mk16(uint16_t c) { QAD *d = qs_new(1, 1); SD(d)[0] = c; qs_seal(d, 0); REF(d) = (uint32_t)-1; return d; }
+static QAD *c18_mk8(uint8_t c) { QAD *d = qb_new(1, 1); BD(d)[0] = c; BD(d)[1] = 0; REF(d) = (uint32_t)-1; return d; }
+void vp_c18_owner_str(char *out, uint32_t code) { ASSUME(code == 'o' || code == 'c'); *(QAD**)out = code == 'o' ? c18_uo[0] : c18_uo[1]; }
+void vp_c18_key_str(char *out, uint32_t code) { ASSUME(code == 'X' || (code >= 'A' && code <= 'D'));
+  *(QAD**)out = code == 'A' ? c18_uk[0] : code == 'B' ? c18_uk[1] : code == 'C' ? c18_uk[2] : code == 'D' ? c18_uk[3] : c18_uk[4]; }
 /* code of a 1-unit string / 1-byte array (0 for anything else) */
 static uint32_t c18_code16(QAD *d) { if (d->f1 != 1) return 0; return d->f3 == QS_OFF ? SD(d)[0] : qs_chars(d)[0]; }
 static uint32_t c18_code8(QAD *d) { if (d->f1 != 1) return 0; return d->f3 == QB_OFF ? BD(d)[0] : qb_bytes(d)[0]; }
@@ -52,7 +60,8 @@ static struct ld *c18_list_own(char *self, char *filler) { struct ld *d = LD(sel
   return d; }
 /* fillers of unused list slots: empty MODEL blocks of the element's own block type (typed reads of every merge alternative fold) */
 static QAD *c18_empty_qb, *c18_empty_qs;
-void vp_c18_init(void) { c18_empty_qb = qb_new(0, 0); REF(c18_empty_qb) = (uint32_t)-1; c18_empty_qs = qs_new(0, 0); qs_seal(c18_empty_qs, 0); REF(c18_empty_qs) = (uint32_t)-1; }
+void vp_c18_init(void) { c18_uo[0] = c18_mk16('o'); c18_uo[1] = c18_mk16('c'); c18_uk[0] = c18_mk8('A'); c18_uk[1] = c18_mk8('B'); c18_uk[2] = c18_mk8('C'); c18_uk[3] = c18_mk8('D'); c18_uk[4] = c18_mk8('X');
+  c18_empty_qb = qb_new(0, 0); REF(c18_empty_qb) = (uint32_t)-1; c18_empty_qs = qs_new(0, 0); qs_seal(c18_empty_qs, 0); REF(c18_empty_qs) = (uint32_t)-1; }
 static void c18_list_append(char *self, char *t, char *filler) { struct ld *d = c18_list_own(self, filler); uint32_t e = d->end; ASSERT(e < LIST_CAP, "QList capacity of the model exceeded"); ASSUME(e < LIST_CAP);
   QAD *x = *(QAD**)t; qad_ref(x); d->array[e] = (char*)x; d->end = e + 1; }
 void _ZN5QListI10QByteArrayE6appendERKS0_(char *self, char *t) { c18_list_append(self, t, (char*)c18_empty_qb); }
